@@ -6,7 +6,7 @@
   Route: (1) ascending non-adjacent interval lists are determined by their members (`iv_ext`); (2) `mergeIv ∘ sortIv`
   yields such a list with the members of the input (`mergeIv_spec`); (3) a canonical set, read as intervals, is such
   a list unless it ends in `n:4294967295,*` (`ivFrom_of_canon`) — the one shape where the two normal forms differ
-  (`normSet` writes `n:*`); `TopOK` excludes it; (4) `insert` preserves "some range is `n:*`" (`insert_anyW`, the
+  (`normSet` writes `n:*`); `TopOK` excludes exactly it (`topOK_of_eq` is the converse); (4) `insert` preserves "some range is `n:*`" (`insert_anyW`, the
   denotation at 2^32 that C15's `insert_any` leaves out).
 -/
 import GoImap.Lemmas.CmdGrammarLitCmds
@@ -582,6 +582,130 @@ theorem normSet_eq_delivSet_of (rs : NumSet.Set) (h : LitOK rs) (ht : TopOK rs =
           ← e1 q hq0 hqW']
         exact (NumSet.any_congr_mem (delivSet rs) _ _ (fun r hr => NumSet.Range.contains_eq_memRange r (hwf r hr) q (by omega)))
   rw [normSet_eq_sortMerge, this, map_interval_of _ hwf]
+
+/-! ### the side condition is necessary -/
+
+theorem IvFrom.apart : ∀ {l : List (Nat × Nat)} {b : Nat}, IvFrom b l → ∀ x ∈ l, ∀ y ∈ l,
+    x = y ∨ x.2 + 1 < y.1 ∨ y.2 + 1 < x.1
+  | [], _, _, x, hx, _, _ => by cases hx
+  | z :: r, b, h, x, hx, y, hy => by
+    have hst := IvFrom.starts h.2.2
+    rcases List.mem_cons.1 hx with rfl | hx'
+    · rcases List.mem_cons.1 hy with rfl | hy'
+      · exact Or.inl rfl
+      · exact Or.inr (Or.inl (hst y hy'))
+    · rcases List.mem_cons.1 hy with rfl | hy'
+      · exact Or.inr (Or.inr (hst x hx'))
+      · exact IvFrom.apart h.2.2 x hx' y hy'
+
+theorem ivMem_of_mem (l : List (Nat × Nat)) (x : Nat × Nat) (hx : x ∈ l) (q : Nat) (h : ivIn x q = true) : ivMem l q = true :=
+  List.any_eq_true.2 ⟨x, hx, h⟩
+
+theorem IvFrom.le : ∀ {l : List (Nat × Nat)} {b : Nat}, IvFrom b l → ∀ x ∈ l, x.1 ≤ x.2
+  | [], _, _, x, hx => by cases hx
+  | z :: r, b, h, x, hx => by
+    rcases List.mem_cons.1 hx with rfl | hx'
+    · exact h.2.1
+    · exact IvFrom.le h.2.2 x hx'
+
+theorem ofInterval_contains_iff (x : Nat × Nat) (q : Nat) (hx : 0 < x.1) (hle : x.1 ≤ x.2) :
+    (ofInterval x).contains q = true ↔
+      (q = 0 ∧ (x.1 = W ∨ x.2 = W)) ∨ (q ≠ 0 ∧ x.1 ≠ W ∧ x.1 ≤ q ∧ (q ≤ x.2 ∨ x.2 = W)) := by
+  unfold ofInterval
+  by_cases h1 : x.1 = W
+  · rw [if_pos h1, NumSet.Range.contains_iff]; dsimp only; omega
+  · by_cases h2 : x.2 = W
+    · rw [if_neg h1, if_pos h2, NumSet.Range.contains_iff]; dsimp only; omega
+    · rw [if_neg h1, if_neg h2, NumSet.Range.contains_iff]; dsimp only; omega
+
+/-- in the interval normal form, a set with `*` and 2^32 - 1 has a range `n:*` -/
+theorem normForm_top (l : List (Nat × Nat)) (b : Nat) (h : IvFrom b l) (hW : ∀ x ∈ l, x.2 ≤ W)
+    (h0 : den (l.map ofInterval) 0 = true) (h1 : den (l.map ofInterval) (W - 1) = true) : den (l.map ofInterval) W = true := by
+  unfold den at h0 h1 ⊢
+  rw [List.any_map] at h0 h1 ⊢
+  obtain ⟨x, hx, cx⟩ := List.any_eq_true.1 h0
+  obtain ⟨y, hy, cy⟩ := List.any_eq_true.1 h1
+  have sx := IvFrom.starts h x hx
+  have sy := IvFrom.starts h y hy
+  have lx := IvFrom.le h x hx
+  have ly := IvFrom.le h y hy
+  have wx := hW x hx
+  have wy := hW y hy
+  have ap := IvFrom.apart h x hx y hy
+  have hWv : W = 4294967296 := rfl
+  rw [Function.comp_apply, ofInterval_contains_iff x _ (by omega) lx] at cx
+  rw [Function.comp_apply, ofInterval_contains_iff y _ (by omega) ly] at cy
+  refine List.any_eq_true.2 ⟨y, hy, ?_⟩
+  rw [Function.comp_apply, ofInterval_contains_iff y _ (by omega) ly]
+  rcases ap with rfl | ap | ap <;> omega
+
+theorem topOK_of_eq (rs : NumSet.Set) (h : LitOK rs) (he : normSet rs = delivSet rs) : TopOK rs = true := by
+  obtain ⟨hc, e1, e2, e3⟩ := delivSet_den rs h
+  obtain ⟨m1, m2, _⟩ := mergeIv_spec (sortIv (rs.map interval)) (sortIv_sorted _) (by
+    intro x hx
+    rw [mem_sortIv] at hx
+    obtain ⟨r, hr, rfl⟩ := List.mem_map.1 hx
+    exact interval_ok r (h.2 r hr))
+  have hW : ∀ x ∈ mergeIv (sortIv (rs.map interval)), x.2 ≤ W := by
+    intro x hx
+    by_cases hgt : W < x.2
+    · exfalso
+      have hm : ivMem (mergeIv (sortIv (rs.map interval))) x.2 = true := by
+        apply ivMem_of_mem _ x hx
+        rw [ivIn_iff]
+        exact ⟨IvFrom.le m1 x hx, Nat.le_refl _⟩
+      rw [m2, ivMem_sortIv, ivMem_map_interval,
+        any_false _ _ (fun r hr => ivIn_interval_out r (h.2 r hr) x.2 (Or.inr hgt))] at hm
+      cases hm
+    · omega
+  cases ht : TopOK rs with
+  | true => rfl
+  | false =>
+    exfalso
+    unfold TopOK at ht
+    rw [Bool.or_eq_false_iff, Bool.or_eq_false_iff] at ht
+    obtain ⟨⟨c, a⟩, b⟩ := ht
+    have hne : den (delivSet rs) W = false := by rw [e3, c]
+    have h0 : den (delivSet rs) 0 = true := by
+      rw [e2]
+      rw [← Bool.not_eq_true, List.all_eq_true] at a
+      have : ∃ r ∈ rs, r.start = 0 := by
+        apply Classical.byContradiction
+        intro hn
+        apply a
+        intro r hr
+        simp only [ne_eq, decide_eq_true_eq]
+        intro hz
+        exact hn ⟨r, hr, hz⟩
+      obtain ⟨r, hr, hz⟩ := this
+      exact List.any_eq_true.2 ⟨r, hr, by simp [NumSetSpec.starRange, hz]⟩
+    have h1 : den (delivSet rs) (W - 1) = true := by
+      rw [e1 (W - 1) (by decide) (by decide)]
+      rw [← Bool.not_eq_true, List.all_eq_true] at b
+      have : ∃ r ∈ rs, r.start = 4294967295 ∨ r.stop = 4294967295 := by
+        apply Classical.byContradiction
+        intro hn
+        apply b
+        intro r hr
+        simp only [ne_eq, Bool.and_eq_true, decide_eq_true_eq]
+        constructor
+        · intro hz; exact hn ⟨r, hr, Or.inl hz⟩
+        · intro hz; exact hn ⟨r, hr, Or.inr hz⟩
+      obtain ⟨r, hr, hz⟩ := this
+      refine List.any_eq_true.2 ⟨r, hr, ?_⟩
+      have hns : ¬ (r.start ≠ 0 ∧ r.stop = 0) := by
+        intro hh
+        have : rs.any nstar = true := List.any_eq_true.2 ⟨r, hr, (nstar_iff r).2 hh⟩
+        rw [c] at this; cases this
+      obtain ⟨l1, l2, l3⟩ := h.2 r hr
+      rw [NumSet.memRange_iff]
+      simp only [NumSet.W] at l1 l2
+      simp only [W]
+      omega
+    rw [← he, normSet_eq_sortMerge] at h0 h1 hne
+    have := normForm_top _ 0 m1 hW h0 h1
+    rw [hne] at this
+    cases this
 
 /-! ### set arguments of commands -/
 
